@@ -55,6 +55,12 @@ def make_config(seed, tier="quick", corrupt=False, index=0):
     cfg["read_cap"] = rc.choice([1, 1, 2, 3, 5, 7]) if rc.random() < 0.25 else 0
     if cfg["size_law"] == "big":
         cfg["read_cap"] = 0  # (quadratic: every short read re-scans a 12 KB partial frame)
+    # the stream is padded (marker-free bytes behind the last frame) to a multiple of the reader's 4096-byte read
+    # size and delivered at once: the last read before the line goes idle is a completely filled one
+    cfg["align4096"] = (not corrupt) and rc.random() < 0.08
+    if cfg["align4096"]:
+        cfg["chunk_law"] = "all"
+        cfg["read_cap"] = 0
     if corrupt:
         cfg["n_frames"] = r.randint(1, 6)
         cfg["n_follow"] = r.randint(8, 12)
@@ -287,6 +293,15 @@ class StreamSim(PeerSim):
                     self.fault("garbage_between_frames")
                 self.send_spec(sp, "burst")
             self.stream_len = conn.inflight[self.peer_side()] - before
+            if cfg.get("align4096"):
+                pad = (-self.stream_len) % 4096
+                while pad:
+                    g = bytes(r.randrange(256) for _ in range(pad))
+                    if MARK not in g and not any(g.endswith(MARK[:k]) for k in range(1, 6)):
+                        self.peer.send_raw(g, {"t": "garbage"})
+                        self.fault("stream_padded_to_a_multiple_of_the_read_size")
+                        self.stream_len += pad
+                        break
             if any(len(sp["frame"]) > 4096 for sp in self.plan):
                 self.probe("frame_over_4096_bytes")
         elif a[0] == "corrupt":
@@ -305,6 +320,25 @@ class StreamSim(PeerSim):
 
     def begin_settle(self):
         super().begin_settle()
+        if (not self.cfg["corrupt"] and self.burst_done and self.violation is None and self.peer.connected
+                and self.at_rest() and self.eut.connection_state == ConnectionState.ACTIVE):
+            # the whole stream has been received (nothing in flight, the reader consumed its buffer and waits) and
+            # nothing more is coming yet: every frame has to be handed over NOW, not when the next bytes arrive
+            conn = self.peer_conn()
+            rx = conn.tr[1 - self.peer_side()] if conn is not None else None
+            rd = getattr(getattr(rx, "protocol", None), "_stream_reader", None) if rx is not None else None
+            if rd is not None and not len(rd._buffer):
+                want = [sp["id"] for sp in self.plan if sp["kind"] == "app"]
+                got = self.delivered_ids()
+                self.stat("idle_handover_checked")
+                if got != want and len(got) < len(want):
+                    law = self.cfg["chunk_law"]
+                    self.violation = Violation(
+                        "held-back", f"C03/frames-held-back-while-idle/law={law}/garbage={'Y' if self.cfg['garbage'] else 'N'}",
+                        f"the stream ({self.stream_len} bytes) was received completely and the line is idle, but only "
+                        f"{len(got)} of {len(want)} application frames were handed over (missing {[w for w in want if w not in got][:4]})")
+                    self._stop("violation")
+                    return
         if self.cfg["corrupt"] and self.burst_done and not self.follow_sent and self.peer.connected:
             self.fire_family(["follow"])
         if self.burst_done and not self.final_sent and self.peer.connected:
